@@ -89,8 +89,10 @@ impl PortFilter {
     /// // Matches ports 8000 through 8999
     /// ```
     pub fn destination_range(mut self, range: std::ops::Range<u16>) -> Self {
-        self.destination_ranges
-            .push((range.start, range.end.saturating_sub(1)));
+        if !range.is_empty() {
+            self.destination_ranges
+                .push((range.start, range.end.saturating_sub(1)));
+        }
         self
     }
 
@@ -105,8 +107,10 @@ impl PortFilter {
     /// // Matches ports 10000 through 19999
     /// ```
     pub fn source_range(mut self, range: std::ops::Range<u16>) -> Self {
-        self.source_ranges
-            .push((range.start, range.end.saturating_sub(1)));
+        if !range.is_empty() {
+            self.source_ranges
+                .push((range.start, range.end.saturating_sub(1)));
+        }
         self
     }
 
